@@ -29,6 +29,7 @@ import JanetModel.Gen.Compile
 import JanetModel.Compile.Theorem
 import JanetModel.Compile.SeqTheorem
 import JanetModel.Compile.SeqCore
+import JanetModel.Compile.SeqTail
 namespace JanetModel.Props.C02
 open JanetModel.Emit
 
@@ -433,19 +434,86 @@ example : TF (fun f => f = "tuple" ∨ f = "emit") false
       · exact .deff "y" _ {} (by decide) (.lit _ trivial)
       · exact .sym "y"
 
+/-- **Compile correctness, tail position (calls)**: a call `(f e₁ … eₙ)` of a global core function (`G f`, not `apply`, not a
+    special form), operands in the fragment `TF G false`, compiled with the TAIL flag in a scope that is not the top level
+    (`janetc_call` with JANET_FOPTS_TAIL): the operands and the pushes are those of the non-tail case, then JOP_TAILCALL of the
+    callee — no target register; the result slot carries JANET_SLOT_RETURNED, so `janetc_value` emits no RETURN after it.
+    If `Lang/Sem.eval` gives the call the value `v` and state `s'`, the VM — from any configuration of the activation satisfying
+    the run-time invariant, wherever the segment sits — reaches a configuration (pending arguments = the operand values) whose
+    NEXT STEP IS `doReturn` OF `v` IN THE WORLD OF `s'`: the activation ends returning what the source means, with the effects
+    the source means.  (Tail position of the other forms — RETURN after a literal / symbol / `def`, the tail flag passed into the
+    last statement of `do` / the branches of `if` — is not proved yet; see `compile_correct_partial`.) -/
+theorem compile_correct_tail_calls (p : Program) (f0 : Frame) (rest : List Frame) (V : Array Value) (P : List JanetModel.Emit.KConst)
+    (hP : P.length < 65536)
+    (hK : ∀ i, i < P.length → (p.defs.getD f0.defIdx default).consts.getD i .nil = litOf V (P.getD i .nil))
+    (FF : FloatFacts) (G : String → Prop)
+    (fuel : Nat) (f : String) (args : List Expr) (pp : Pos) (opts : Fopts) (c c' : CState) (slot : JSlot) (sc : Scope) (rs : List Scope)
+    (pool : List JanetModel.Emit.KConst) (ps : List (List JanetModel.Emit.KConst)) (n : Nat) (cur : Pos) (env env' : Env) (s s' : SS) (v : Value)
+    (ht : opts.tail = true) (hh : opts.hint = none)
+    (hs : c.scopes = sc :: rs) (hp : c.pools = pool :: ps) (hl : c.lim ≤ 240) (htop : sc.top = false)
+    (hf : specials.contains f = false) (hna : f ≠ "apply") (hG : G f) (hargs : ∀ a, a ∈ args → TF G false a)
+    (hcomp : cValue (fuel + 1) opts (.form (.sym f :: args) pp) c = some (slot, c'))
+    (hsem : eval n cur env (.form (.sym f :: args) pp) s = .ok (v, env') s')
+    (henv : EnvS G c.scopes env s.boxes.size sc.ra) :
+    slot.returned = true ∧
+    ∃ (mx : Nat) (more : List JanetModel.Emit.KConst) (seg : List CI) (segm : List Pos),
+      c'.buf = c.buf ++ seg ∧ c'.map = c.map ++ segm ∧ c'.pools = (pool ++ more) :: ps ∧ PrefA c.vals c'.vals ∧
+      (∃ sc', c'.scopes = sc' :: rs ∧ sc'.ra.max = mx) ∧
+      ∀ (k : Cfg), k.w = s.st.world → k.args = #[] → EnvD c.scopes env s k.regs →
+        CodeAt (p.defs.getD f0.defIdx default).code k.pc seg → PrefL (pool ++ more) P → PrefA c'.vals V → mx < k.regs.size →
+        ∃ (regs' A : Array Value) (pc' : Nat) (wa : World),
+          Reach p (inj f0 rest k) (inj f0 rest { regs := regs', pc := pc', args := A, w := wa }) ∧ regs'.size = k.regs.size ∧
+          step p (inj f0 rest { regs := regs', pc := pc', args := A, w := wa }) =
+            doReturn p (inj f0 rest { regs := regs', pc := pc', args := #[], w := s'.st.world }) v := by
+  rw [cValue_call_tail fuel opts ht hh f args pp c hf] at hcomp
+  obtain ⟨q, hq⟩ := curAt_eq c pp
+  cases hcc : cCall (cValue fuel) opts (.sym f) args (curAt c pp) with
+  | none => rw [hcc] at hcomp; simp at hcomp
+  | some res =>
+    obtain ⟨ret, c1⟩ := res
+    rw [hcc] at hcomp
+    have hgl : lookupEnv env f = none := by
+      rcases henv.2 f with ⟨_, h⟩ | ⟨sl, r, a', u, h, _⟩
+      · exact h
+      · rw [henv.1 f hG] at h; exact absurd h (by simp)
+    obtain ⟨n2, vs, s_a, _, hsa, happ⟩ := eval_callN_inv n cur env env' f args pp s s' v hf hgl hsem
+    rw [hq] at hcc
+    obtain ⟨hret, mx, more, seg, segm, b1, b2, b3, b4, b5, vm⟩ :=
+      tail_call_core p f0 rest V P hP hK FF G (TF G false) false fuel
+        (tf_correct p f0 rest V P hP hK FF G false false (fun h => absurd h (by simp)) fuel) (fun a h => h.notSplice)
+        opts ht f args hna hG hargs { c with cur := q } c1 ret sc rs pool ps n2 (posOf cur pp) env env' s s_a s' vs v hs hp hl htop hcc hsa happ henv
+    simp only [cReturn_returned c1 ret hret, Option.bind_some, Option.some.injEq, Prod.mk.injEq] at hcomp
+    obtain ⟨e1, e2⟩ := hcomp
+    subst e1 e2
+    refine ⟨hret, mx, more, seg, segm, b1, b2, b3, b4, b5, fun k a1 a2 a3 a4 a5 a6 a7 => ?_⟩
+    obtain ⟨regs', A, pc', r1, _, r3, r4⟩ := vm k a1 a2 a3 a4 a5 a6 a7
+    exact ⟨regs', A, pc', s_a.st.world, r1, r3, r4⟩
+
+/-- non-vacuity: the option set of a function body's last form satisfies the hypotheses of `compile_correct_tail_calls` -/
+example : ({ tail := true } : Fopts).tail = true ∧ ({ tail := true } : Fopts).hint = none := ⟨rfl, rfl⟩
+
 /-- `compile_correct` for the rest of the modelled fragment is NOT proved.  Proved of it: `compile_correct_calls` above, and
     (this theorem) the two atomic cases for every option set without hint / tail: a literal and a global function symbol compile
     to a constant slot, emit no code and leave scopes and buffer untouched.
-    Proved since: `compile_correct_statements` (`do`, `upscope`, `def` of a symbol in a local scope, sequencing, dropped values).
-    Missing, exactly: (1) calls with 0 or ≥ 2 arguments (PUSH_2 / PUSH_3 grouping: operands held simultaneously), calls through
-    locals and computed heads (need closures in the VM relation); (2) `if` (jumps,
-    label patches: code layout of sub-forms under the patches; target copy through the hint), `var` / `set` (a register that is
-    written: the invariant needs injectivity of mutable names' registers), destructuring `def`, `while` / `break`, `fn` / closures /
-    upvalues (`janetc_popscope`'s `keep` reservations are modelled and compared word for word, not proved); (3) the error outcome
-    (same error value at the source-map position: needs the model's `map` in `Correct`), tail position (RETURN / TAILCALL ends the
-    activation), the dropped-value variant (same code here); (4) far registers (`lim` > 0xF0: the `emit_*_correct` theorems cover
-    the emit layer, not yet connected).  Every construct outside `compile_correct_calls` stays translation-validated: model =
-    real compiler word for word, real bytecode run by the Lean VM = real VM = `Lang/Sem`. -/
+    Proved since: `compile_correct_statements` (`do`, `upscope`, `def` of a symbol in a local scope, sequencing, dropped values),
+    `compile_correct_nary_calls` (calls of global core functions with any number of operands: PUSH / PUSH_2 / PUSH_3 grouping,
+    operands held together), `compile_correct_tail_calls` (such a call in tail position: TAILCALL, the next VM step is the
+    return of the value), and — see `compile_correct_if` below when present — `if` with a call as condition.
+    Missing, exactly: (1) calls through locals and computed heads (the callee may be a closure: needs closures in the VM relation;
+    no semantic side condition available to exclude them); (2) `if` whose condition compiles to a constant (the
+    constant-condition folding of `janetc_if`: `janetc_throwaway` truncates the source map by the CODE length, so the induction
+    must carry `map.length = buf.length`; not threaded yet) or to a local symbol; `var` / `set` (a register that is written:
+    the invariant needs injectivity of mutable names' registers — `(def y x)` aliases only immutable locals — and the induction
+    hypothesis must be generalised to a compile with a HINT slot, since `set` compiles its value with the variable as hint and
+    calls / `if` then write the variable's register directly; with `set` in the fragment the n-ary call needs the side condition
+    that no operand is a variable a later operand sets: janet reads operand registers when the call is made), destructuring `def`,
+    `while` / `break`, `fn` / closures / upvalues (`janetc_popscope`'s `keep` reservations are modelled and compared word for word,
+    not proved); (3) the error outcome (same error value at the source-map position: `Correct2` hides the emitted `map` segment;
+    needs the funcdef's source map tied to it like `hK` ties the constants), tail position of the forms other than calls (RETURN
+    after a literal / symbol / `def`; the tail flag passed into `do` / `if`), the top-level scope (`sc.top`: calls are never tail
+    calls there, `def` makes globals); (4) far registers (`lim` > 0xF0: the `emit_*_correct` theorems cover the emit layer, not yet
+    connected).  Every construct outside these theorems stays translation-validated: model = real compiler word for word, real
+    bytecode run by the Lean VM = real VM = `Lang/Sem`. -/
 theorem compile_correct_partial (fuel : Nat) (opts : Fopts) (c : CState) (hopts : opts.tail = false ∧ opts.hint = none) :
     (∀ v : Value, (match v with | .nil | .bool _ | .num _ | .str _ | .kw _ | .sym _ | .cfun _ => True | _ => False) →
         cValue (fuel + 1) opts (.lit v) c = some ((constSlot c v).1, { (constSlot c v).2 with cur := c.cur }) ∧
